@@ -301,6 +301,20 @@ def _run(V, work, tier):
         else:
             V.notes.append("trace rejection attributed to %s: %s" % (r["prop"], json.dumps(r["event"])))
     V.coverage["traces_validated_against_impl"] = len(meta) + summ["programs"]
+    # ---- a pending time:sleep: a cancellation that arrives while an admitted sleep is in progress ends it at once, whatever
+    # kind of context carries it (cancel-only, with a far deadline, with a ceiling); Time.tla's admission rule (C15) gives
+    # the verdicts, here only the clause of THIS property is asked: stopped, and promptly
+    sl = [{"id": "s%d" % i, "sleep": c} for i, c in enumerate([
+        {"d": 3000, "max": 0, "ceiling": 0, "deadline": 0, "cancelled": False, "cancelat": 150},
+        {"d": 3000, "max": 0, "ceiling": 0, "deadline": 60000, "cancelled": False, "cancelat": 150},
+        {"d": 3000, "max": 5000, "ceiling": 0, "deadline": 60000, "cancelled": False, "cancelat": 150},
+        {"d": 3000, "max": 0, "ceiling": 10000, "deadline": 20000, "cancelled": False, "cancelat": 150},
+        {"d": 3000, "max": 0, "ceiling": 0, "deadline": 0, "cancelled": True, "cancelat": 0}])]
+    for r in driver_json(binary, ["timex"], sl, timeout=120):
+        c = [x for x in sl if x["id"] == r["id"]][0]["sleep"]
+        if r["out"] != "context-cancelled" or r["elapsed_ms"] > 150 + 1500:
+            V.add(None, "a cancelled context does not stop a pending time:sleep: %r answered %s after %d ms" % (c, r["out"], r["elapsed_ms"]), {"case": c, "real": r})
+    V.coverage["pending_sleep_cancellations"] = len(sl)
     V.coverage["exhaustive"] = False
     V.coverage["explanation"] = "%d (program, budget/cancel/limit) configurations predicted by Machine.tla and replayed; budgets enumerate every n in 1..S+1 for programs with S <= %d" % (len(meta), maxb)
     V.assumptions += ["cancellation modelled as the k-th poll of ctx.Err() (deterministic), not wall-clock deadlines"]
